@@ -15,6 +15,7 @@ pub(crate) const MODE_PROMOTED: u8 = 3; //  guarded float opcode vs generic on f
 pub(crate) const MODE_NOFLOAT: u8 = 4; //   any Value except floats (float * / % kernels do not finish in CBMC)
 pub(crate) const MODE_NONAN: u8 = 5; //     any Value except NaN (generic Eq/Ne compare identical bits as equal; typed forms follow IEEE)
 pub(crate) const MODE_PROMOTED_NONAN: u8 = 6;
+pub(crate) const MODE_PROMOTED_SMALL_RIGHT: u8 = 7; // like MODE_PROMOTED, right operand an int in -8..=8 or one of 0.5, 2.0, -1.5, inf
 
 pub(crate) struct PairIn {
     pub abc: u32,
@@ -68,6 +69,15 @@ pub(crate) fn pair_input(mode: u8) -> PairIn {
             kani::assume(vb.is_int() && vc.is_int());
         } else {
             kani::assume(vb.is_float() && vc.is_float());
+        }
+    }
+    if mode == MODE_PROMOTED_SMALL_RIGHT {
+        // two full-width symbolic float multipliers/dividers in one query do not finish; with a small right operand they do
+        if c < VERIF_REGS {
+            let v = Value::from_raw(regs[c]);
+            let small_int = matches!(v.as_int(), Some(i) if i >= -8 && i <= 8);
+            let few_floats = matches!(v.as_float(), Some(f) if f == 0.5 || f == 2.0 || f == -1.5 || f == f64::INFINITY);
+            kani::assume(small_int || few_floats || (!v.is_int() && !v.is_float()));
         }
     }
     if mode == MODE_NOFLOAT || mode == MODE_NONAN || mode == MODE_PROMOTED_NONAN {
@@ -147,7 +157,7 @@ macro_rules! c06_pair {
             fn $name() {
                 let inp = pair_input($mode);
                 let mut vm1 = pair_vm($op_t, &inp, false);
-                let mut vm2 = pair_vm($op_g, &inp, $mode == MODE_PROMOTED || $mode == MODE_PROMOTED_NONAN);
+                let mut vm2 = pair_vm($op_g, &inp, $mode == MODE_PROMOTED || $mode == MODE_PROMOTED_NONAN || $mode == MODE_PROMOTED_SMALL_RIGHT);
                 let (mut o1, mut o2) = (None, None);
                 let r1 = vm1.$step_t::<{ $op_t }>(&mut o1);
                 let r2 = vm2.$step_g::<{ $op_g }>(&mut o2);
